@@ -3,7 +3,7 @@
 import json, os, shutil, sys, glob
 
 # usage: assemble_seeded.py [root conf matrix base]...   (default: the three rounds under /tmp/mut, /tmp/mut2, /tmp/mut3)
-ROUNDS = [("/tmp/mut", "/root/mutant_confirm.jsonl", "/root/mutant_matrix.tsv", "447ed3b"), ("/tmp/mut2", "/root/mutant_confirm2.jsonl", "/root/mutant_matrix2.tsv", "a63c2fe"), ("/tmp/mut3", "/root/mutant_confirm3.jsonl", "/root/mutant_matrix3.tsv", "8b62ba8"), ("/tmp/mut4", "/root/mutant_confirm4.jsonl", "/root/mutant_matrix4.tsv", "8b62ba8"), ("/tmp/mut5", "/root/mutant_confirm5.jsonl", "/root/mutant_matrix5.tsv", "8b62ba8")]
+ROUNDS = [("/tmp/mut", "/root/mutant_confirm.jsonl", "/root/mutant_matrix.tsv", "447ed3b"), ("/tmp/mut2", "/root/mutant_confirm2.jsonl", "/root/mutant_matrix2.tsv", "a63c2fe"), ("/tmp/mut3", "/root/mutant_confirm3.jsonl", "/root/mutant_matrix3.tsv", "8b62ba8"), ("/tmp/mut4", "/root/mutant_confirm4.jsonl", "/root/mutant_matrix4.tsv", "8b62ba8"), ("/tmp/mut5", "/root/mutant_confirm5.jsonl", "/root/mutant_matrix5.tsv", "8b62ba8"), ("/tmp/mut6", "/root/mutant_confirm6.jsonl", "/root/mutant_matrix6.tsv", "8b62ba8")]
 if len(sys.argv) > 4:
     a = sys.argv[1:]
     ROUNDS = [tuple(a[i : i + 4]) for i in range(0, len(a) - 3, 4)]
@@ -24,7 +24,7 @@ for ROOT, CONF, MATRIX, BASE in ROUNDS:
             t = l.rstrip("\n").split("\t")
             if len(t) >= 4:
                 matrix.setdefault(t[0], []).append(dict(check=t[1], rc=t[2].replace("rc=", ""), violations=int(t[3]) if t[3].isdigit() else t[3], failing_claims=t[4] if len(t) > 4 else ""))
-    for d in sorted(glob.glob(ROOT + "/C*/[a-j]")):
+    for d in sorted(glob.glob(ROOT + "/C*/[a-k]")):
         dirs.append(d)
         base_of[d] = BASE
 rows = []
@@ -60,7 +60,7 @@ for d in sorted(dirs, key=lambda x: (os.path.basename(os.path.dirname(x)), os.pa
             baseline_with_change=c.get("baseline"),
             valid=bool(c) and c.get("demo_rc_clean") == 0 and c.get("demo_rc_mutant") not in (0, None) and "76 passed" in (c.get("baseline") or ""),
         ),
-        checks_run=dict(how="git -C /repo apply <patch>; ./check <ID> --tier quick; git -C /repo checkout -- .", results=m),
+        checks_run=dict(how=("scratch worktree of /repo HEAD with the change applied, checks run from /verif with PYTHONPATH=<worktree> (tools/try_mutant_wt.sh; /repo untouched); ./check <ID> --tier quick; worktree removed" if d.startswith("/tmp/mut6/") else "git -C /repo apply <patch>; ./check <ID> --tier quick; git -C /repo checkout -- ."), results=m),
         caught_by=caught,
     )
     json.dump(out, open(os.path.join(dst, "meta.json"), "w"), indent=1)
